@@ -412,6 +412,9 @@ def run_check(prop, tier, seed, workers, replay=None, budget=None, extra=None):
         k, v = os.environ["VERIF_JOB_FILTER"].split("=")
         jobs = [j for j in jobs if str(j.get(k)) == v]
         plan["min_executed"] = 1
+    if os.environ.get("VERIF_MAX_JOBS"):
+        jobs = jobs[: int(os.environ["VERIF_MAX_JOBS"])]
+        plan["min_executed"] = 1
     assign_hashseeds(plan, jobs, prop)
     timeout = plan.get("timeout", 120)
     budget_s = budget or plan.get("budget_s")
@@ -432,10 +435,15 @@ def run_check(prop, tier, seed, workers, replay=None, budget=None, extra=None):
 
         # retry harness timeouts/errors once in a fresh interpreter (load spikes), then classify
         harness_errors = []
+        retried = 0
         for i, r in enumerate(results):
             if r is None:
                 results[i] = r = {"status": "error", "error": "no result"}
             if r.get("status") in ("error", "timeout"):
+                if retried >= 6:  # systematic harness failure: do not spend the budget on retries
+                    harness_errors.append((jobs[i], r))
+                    continue
+                retried += 1
                 r2 = pool.fresh_run(jobs[i], timeout=timeout * 3)
                 if r2.get("status") in ("error", "timeout"):
                     harness_errors.append((jobs[i], r2))
@@ -456,7 +464,7 @@ def run_check(prop, tier, seed, workers, replay=None, budget=None, extra=None):
                 print("GROUP n=%d %s | %s  seeds=%s\n      %s" % (len(items), s[0], s[1], [it[0].get("seed") for it in items[:3]], items[0][2].get("detail", "")[:400]))
             for j, r in zip(jobs, results):
                 if r.get("status") in ("error", "timeout"):
-                    print("ERR", {k: v for k, v in j.items() if k != "spec"}, r.get("error", "")[-1500:])
+                    print("ERR", {k: v for k, v in j.items() if k != "spec"}, r.get("error", "")[-900:])
             print("executed=%d skipped=%d wall=%.0f" % (len(executed), skipped, time.monotonic() - t_start))
             return 3
         shrunk = 0
